@@ -64,6 +64,14 @@ TStored ==
 
 (* ---- the loader ---- *)
 TLoad == HasEv("load") /\ Consume /\ PreCheck /\ Keep
+\* the path is a directory: nothing was stored
+TLoadDir ==
+  /\ HasEv("load") /\ cause = "isdir" /\ pcl = "store" /\ Consume /\ Keep
+  /\ fileIs' = "exact" /\ pcl' = "stat"
+  /\ UNCHANGED <<prior, loader, flags, cause, flen, region, advised, caseB, caseS, result, owner, readers, sDropped, order, steps>>
+\* the read() on a directory fails; the region is dropped as a local of the loader
+TReadFail ==
+  /\ HasEv("read") /\ ~Ev.ok /\ loader # "load_full" /\ Consume /\ Keep /\ ReadFail
 \* encase: there is no file and no store(); the structure is wrapped without any call
 TEncase ==
   /\ HasEv("load") /\ loader = "encase" /\ pcl = "store" /\ Consume /\ Keep
@@ -98,7 +106,8 @@ TNoHeapAlloc ==
   /\ pcl = "alloc" /\ loader = "load_mem" /\ EffLen = 0 /\ ~HasEv("halloc") /\ Alloc /\ UNCHANGED <<l, addr, canary, wrote>>
 \* a zero-length mapping is refused before any system call
 TNoMap ==
-  /\ pcl = "alloc" /\ RegionKind(loader) = "map" /\ EffLen = 0 /\ Alloc /\ UNCHANGED <<l, addr, canary, wrote>>
+  /\ pcl = "alloc" /\ RegionKind(loader) = "map" /\ (EffLen = 0 \/ (loader = "mmap" /\ cause = "isdir"))
+  /\ Alloc /\ result' # "pending" /\ UNCHANGED <<l, addr, canary, wrote>>
 \* madvise(addr, len, advice): the next advice of the flag table, on the whole region
 TAdvise ==
   /\ HasEv("advise") /\ pcl = "advise" /\ advised < Len(AdviceOf(flags)) /\ Consume /\ Keep
@@ -136,6 +145,8 @@ TSilent == (DeserOk \/ DeserFailNoRegion \/ Return) /\ UNCHANGED <<l, addr, cana
 ReleaseEvent ==
   \/ HasEv("unmap") /\ region.kind = "map" /\ Ev.addr = addr /\ Ev.len = region.cap
   \/ HasEv("hfree") /\ region.kind = "heap" /\ Ev.addr = addr /\ Ev.size = region.cap /\ Ev.align = RoundOf("load_mem")
+TReleaseLocal ==
+  /\ ReleaseEvent /\ pcl = "readfail" /\ Consume /\ Keep /\ DropLocal
 \* ... on the error path of the loader (the BackendGuard), before the call returns
 TReleaseOnError ==
   /\ ReleaseEvent /\ pcl = "deser" /\ caseB /\ Consume /\ Keep
@@ -187,7 +198,7 @@ TDropped ==
   /\ UNCHANGED <<prior, fileIs, loader, flags, cause, flen, region, advised, caseB, caseS, result, owner, readers, sDropped, order, steps>>
 
 TNext ==
-  \/ TCase \/ TCreate \/ TWrite \/ TStored \/ TLoad \/ TEncase \/ TStat \/ TOpen \/ TMap \/ THeapAlloc \/ TNoMap
+  \/ TCase \/ TCreate \/ TWrite \/ TStored \/ TLoad \/ TLoadDir \/ TReadFail \/ TReleaseLocal \/ TEncase \/ TStat \/ TOpen \/ TMap \/ THeapAlloc \/ TNoMap
   \/ TAdvise \/ TAdviseDone \/ TRead \/ TNoRead \/ TProtect \/ TWrapSilent \/ TClose \/ TSilent
   \/ TNoHeapAlloc \/ TReleaseOnError \/ TReleaseOnErrorSilent \/ TReturned \/ TLoaded \/ TOp \/ TSDrop \/ TSDropSilent \/ TRelease \/ TDropBSilent \/ TDropped
 
